@@ -101,12 +101,20 @@ def check_c02(prog, rep, tier, cfg):
     tl = prog.adts.get(LANG + "TextLiteralKind")
     if rep.check(b is not None and tt and ck and tl, R, "anchor:get_formatting_invariant", "get_formatting_invariant / token type enums not found"):
         try:
-            t = Table(prog, b)
+            t = Table(prog, b, inline=2, opaque=("get_prev_token_type_for_line_index", "get_token_type_for_line_index"))
         except TooComplex as e:
             t = None
             rep.fail(R, "table", "get_formatting_invariant is no longer a loop-free classifier: %s" % e)
         if t is not None:
-            rep.floor(R, "decision-table rows", len(t.rows), 30)
+            rep.floor(R, "decision-table rows", len(t.rows), 20)
+            # the two classified values, however the function names them: the accessor results themselves or the fields of a tuple built from them
+            acc = {}
+            for c in b.calls():
+                nm = (c.callee or "").split("::")[-1]
+                if nm in ("get_prev_token_type_for_line_index", "get_token_type_for_line_index"):
+                    acc[nm] = canon(b, {"k": "copy", "place": c.t["dst"]}) if not c.t["dst"]["p"] else None
+            extra_roots = lambda pv, cv: ([(acc["get_prev_token_type_for_line_index"], pv)] if acc.get("get_prev_token_type_for_line_index") else []) + \
+                ([(acc["get_token_type_for_line_index"], cv)] if acc.get("get_token_type_for_line_index") else [])
 
             def kinds():
                 out = [None]
@@ -128,7 +136,7 @@ def check_c02(prog, rep, tier, cfg):
             for prev, cur in itertools.product(K, K):
                 pv = ("None",) if prev is None else prev
                 cv = ("None",) if cur is None else cur
-                res = table_results(t, [("}.0", pv), ("}.1", cv)])
+                res = table_results(t, [("}.0", pv), ("}.1", cv)] + extra_roots(pv, cv))
                 pk = prev[1] if prev else None
                 cu = cur[1] if cur else None
                 want = None
@@ -234,10 +242,11 @@ def check_c02(prog, rep, tier, cfg):
             bb, s = a[1], a[4]
             arm = [fx[2][0] for fx in dominating_variant_facts(prog, rs, bb) if fx[1] == "is" and fx[2][0] in ("Break", "Continue")]
             rv = s["rv"]
-            v = rv["op"].get("int") if rv["k"] == "use" and rv["op"]["k"] == "const" else canon(rs, rv["op"]) if rv["k"] == "use" else "?"
-            vals.setdefault(arm[-1] if arm else None, set()).add(str(v))
-        ok = all(v == "1" or (v.startswith("clamp(") and v.endswith(",1,2)")) for v in vals.get("Break", {"x"})) and vals.get("Continue") == {"0"} and None not in vals
-        rep.check(ok, R, "Break=>>=1-newline,Continue=>0", "reconstruct_solution realises decisions as %s" % {k: sorted(v) for k, v in vals.items()}, instance={str(k): sorted(v) for k, v in vals.items()})
+            from util import small_value_class, within
+            for v in small_value_class(prog, rs, rv):
+                vals.setdefault(arm[-1] if arm else None, set()).add(v)
+        ok = within(vals.get("Break", set()), 1, 2) and vals.get("Continue") == {0} and None not in vals
+        rep.check(ok, R, "Break=>>=1-newline,Continue=>0", "reconstruct_solution realises decisions as %s" % {k: sorted(map(str, v)) for k, v in vals.items()}, instance={str(k): sorted(map(str, v)) for k, v in vals.items()})
     # ---------------------------------------------------------------- C02.e last-resort safety net
     R = "C02.e"
     import text
